@@ -291,7 +291,10 @@ static Result judge_stateless(const Case& c) {
   return r;
 }
 
-static Result run_case(const std::string& prop, const Case& c) {
+static Result run_case(const std::string& prop, const Case& c0) {
+  Case mapped;
+  if (c0.campaign == "FUZZ") { mapped = c0; mapped.campaign = "HISTR"; if (prop == "C13" && !c0.data.empty()) mapped.aux[3] = c0.data[0] & 1; }
+  const Case& c = mapped.campaign.empty() ? c0 : mapped;
   if (c.campaign == "SEQ") return judge_seq(c);
   if (c.campaign == "GROW") return judge_grow(c);
   if (c.campaign == "ALOAD") return judge_aload(c);
@@ -456,12 +459,18 @@ static void run_campaigns(Ctx& ctx) {
   }
 }
 
-int main(int argc, char** argv) {
+static void driver_init() {
   g_devnull = fopen("/dev/null", "w");
   ar::g.a[0].init((size_t)64 << 20); ar::g.a[1].init((size_t)1 << 20);
   g_hooks = ar::install_hooks();
   use_va();
   va::g.single_cap = (size_t)1 << 24;
-  vh::Driver drv{"drv_hist", run_campaigns, run_case};
+}
+static const char* kDriverName = "drv_hist";
+#ifndef VH_FUZZ_TARGET
+int main(int argc, char** argv) {
+  driver_init();
+  vh::Driver drv{kDriverName, run_campaigns, run_case};
   return vh::driver_main(argc, argv, drv);
 }
+#endif
